@@ -349,6 +349,19 @@ func buildSerState(rng *rand.Rand, kind string, allowEmpty bool, forceShape ...i
 				sort.Strings(p)
 				out = append(out, fmt.Sprintf("t%d[%q] err=%v: %s", i, q, err != nil, strings.Join(p, " ")))
 			}
+			// node-id queries (the query is the stored document itself: exercises what the index keeps per document)
+			for i, id := range live {
+				if i >= 4 {
+					break
+				}
+				res, err := ix.NewSearch().WithNode(id).WithK(0).Execute()
+				p := make([]string, len(res))
+				for j, r := range res {
+					p[j] = fmt.Sprintf("%d:%.6g", r.Id, r.Score)
+				}
+				sort.Strings(p)
+				out = append(out, fmt.Sprintf("node%d[%d] err=%v: %s", i, id, err != nil, strings.Join(p, " ")))
+			}
 			return out
 		}
 		st.mutate = func(rng *rand.Rand, x any, n int) {
